@@ -3,7 +3,7 @@ from copy import copy
 from datetime import datetime
 from functools import wraps
 import glob
-from inspect import signature, ismethod
+from inspect import signature
 import os
 import pickle
 import warnings
@@ -186,9 +186,9 @@ class FileHandler:
         """
         if self.info is not None:
             # Some functions do not accept additional key word arguments (via
-            # kwargs). And if they are methods, they accept an additional
-            # "self" or "class" parameter.
-            number_args = 1 + int(ismethod(self.info))
+            # kwargs). (The signature of a bound method does not list its
+            # "self" or "class" parameter.)
+            number_args = 1
             if len(signature(self.info).parameters) > number_args:
                 return self.info(filename, **kwargs)
             else:
@@ -215,9 +215,9 @@ class FileHandler:
         """
         if self.reader is not None:
             # Some functions do not accept additional key word arguments (via
-            # kwargs). And if they are methods, they accept an additional
-            # "self" or "class" parameter.
-            number_args = 1 + int(ismethod(self.reader))
+            # kwargs). (The signature of a bound method does not list its
+            # "self" or "class" parameter.)
+            number_args = 1
             if len(signature(self.reader).parameters) > number_args:
                 return self.reader(filename, **kwargs)
             else:
